@@ -243,7 +243,9 @@ m("c20-watcher-not-cancelled", "C20", [(FILE, '''		// stop the current watcher
 # ---- C06 (after repair)
 m("c06-math-rand-from-crypto-seed", "C06", [(SESS, '''		_, _ = rand.Read(buf)''', '''		mr := mrand.New(mrand.NewSource(time.Now().UnixNano()))
 		_, _ = mr.Read(buf)''', ), (SESS, '''	"crypto/rand"''', '''	"crypto/rand"
-	mrand "math/rand"''')], "bytes drawn from a time-seeded math/rand again (different construction than before)")
+	mrand "math/rand"'''), (SESS, '''func NewRandomGenerator() SessionGenerator {''', '''var _ = rand.Reader
+
+func NewRandomGenerator() SessionGenerator {''')], "bytes drawn from a time-seeded math/rand again (different construction than before)")
 m("c06-state-derived-from-id", "C06", [(OIDC, '''		state        = o.sessionGen.GenerateState()''', '''		state        = sessionID[:32]''')], "state is the first half of the session id")
 
 
